@@ -20,6 +20,66 @@ def sh(cmd, cwd=None, timeout=3600):
     return p.returncode, p.stdout
 
 
+ROOT = "/tmp/reg"
+
+
+def run_one(args):
+    """worker: private worktree of /repo and private copy of /verif (so that /repo itself is never touched and several
+    changes are evaluated at once)"""
+    k, ids, tier = args
+    import re as _re
+    w = os.path.join(ROOT, "w%d" % k)
+    repo, verif = os.path.join(w, "repo"), os.path.join(w, "verif")
+    env = dict(os.environ, PYMODES_REPO=repo, PYTHONPATH=os.path.join(repo, "src"))
+    out = []
+    for i in ids:
+        prop = i.split("-")[0]
+        harmless = _re.search(r"-h4?m\d", i) is not None
+        subprocess.run(["git", "-C", repo, "checkout", "--", "."])
+        subprocess.run(["git", "-C", repo, "clean", "-fdq", "src", "tests"])
+        p = subprocess.run(["git", "-C", repo, "apply", os.path.join(VERIF, "seeded", i, "patch.diff")], stdout=subprocess.PIPE, stderr=subprocess.STDOUT, text=True)
+        if p.returncode != 0:
+            out.append(dict(id=i, applies=False, as_expected=False, lines=[p.stdout[-200:]]))
+            continue
+        q = subprocess.run([os.path.join(verif, "check"), prop, "--tier", tier], cwd=verif, env=env, stdout=subprocess.PIPE, stderr=subprocess.STDOUT, text=True)
+        lines = [l for l in q.stdout.split("\n") if l.startswith(("VIOLATION", "OK ", "FAIL ", "TOOL"))]
+        viol = any(l.startswith("VIOLATION") for l in lines)
+        ok = (q.returncode == 0 and not viol) if harmless else (q.returncode == 1 and viol)
+        concrete = viol and not any("no-failing-input-found" in l for l in lines)
+        out.append(dict(id=i, harmless=harmless, exit=q.returncode, violation=viol, concrete=concrete, as_expected=ok, lines=lines))
+        print("%s %s exit=%d %s" % ("ok  " if ok else "BAD ", i, q.returncode, "; ".join(lines)[:200]))
+        sys.stdout.flush()
+    subprocess.run(["git", "-C", repo, "checkout", "--", "."])
+    return out
+
+
+def main_parallel(ids, tier, workers, outpath):
+    import shutil
+    from concurrent.futures import ProcessPoolExecutor
+    shutil.rmtree(ROOT, ignore_errors=True)
+    os.makedirs(ROOT)
+    for k in range(workers):
+        w = os.path.join(ROOT, "w%d" % k)
+        os.makedirs(w)
+        sh(["git", "-C", "/repo", "worktree", "add", "--detach", os.path.join(w, "repo"), "HEAD"])
+        sh(["rsync", "-a", "--exclude", ".git", "--exclude", "replays", "--exclude", "seeded", VERIF + "/", os.path.join(w, "verif") + "/"])
+    res = []
+    try:
+        with ProcessPoolExecutor(workers) as ex:
+            for r in ex.map(run_one, [(k, ids[k::workers], tier) for k in range(workers)]):
+                res += r
+    finally:
+        for k in range(workers):
+            sh(["git", "-C", "/repo", "worktree", "remove", "--force", os.path.join(ROOT, "w%d" % k, "repo")])
+        sh(["git", "-C", "/repo", "worktree", "prune"])
+        shutil.rmtree(ROOT, ignore_errors=True)
+    bad = [r for r in res if not r.get("as_expected")]
+    if outpath:
+        json.dump(sorted(res, key=lambda r: r["id"]), open(outpath, "w"), indent=1)
+    print("summary: %d changes, %d not as expected: %s" % (len(res), len(bad), [r["id"] for r in bad]))
+    return 1 if bad else 0
+
+
 def main():
     a = sys.argv[1:]
     tier = a[a.index("--tier") + 1] if "--tier" in a else "quick"
@@ -32,6 +92,8 @@ def main():
     if "--ids" in a:
         want = set(a[a.index("--ids") + 1].split(","))
         ids = [i for i in ids if i in want]
+    if "--workers" in a:
+        return main_parallel(ids, tier, int(a[a.index("--workers") + 1]), a[a.index("--out") + 1] if "--out" in a else None)
     rc, o = sh(["git", "-C", "/repo", "status", "--short"])
     if o.strip():
         print("refusing: /repo is not clean:\n" + o)
